@@ -66,17 +66,60 @@ class Counted(collections.abc.Coroutine):
         return self
 
 
+HISTORIES = ("std", "dir", "reoffer", "abort", "abortclose", "gone", "badfp", "stopped", "stopearly")
+
+
 def script(cfg):
-    """the calls of a session: [peer, op, arg]"""
+    """the calls of a session: [peer, op, arg].  `cfg["hist"]` selects the family of session histories:
+      std        the plain session (negotiate, connect, transceiver.stop(), more media, a second offer/answer round)
+      dir        the answerer restricts the direction of its first transceiver (`cfg["dir"]`: sendonly / inactive / recvonly):
+                 receivers that exist, have a track, and are never started although their transport connects
+      reoffer    connected, then a follow-up offer adding `cfg["extra"]` is applied by the answerer and not answered
+      abort      connected with a data channel, the remote stops its SCTP transport (association aborted, the local connection
+                 stays up), then the local application creates things (`cfg["after"]`)
+      abortclose the remote closes; the local application re-creates a channel from the `close` handler of its channel
+      gone       the remote's sockets die underneath it; the local application creates things (`cfg["after"]`)
+      badfp      the answer carries a wrong DTLS fingerprint: the offerer's transport fails with remote tracks present
+      stopped    both applications stop their first transceiver after the pair is connected
+      stopearly  the offerer stops its first transceiver while ICE / DTLS are still to connect, then the pair connects"""
+    h = cfg.get("hist", "std")
     media = cfg["media"]
     calls = [[0, "add", m] for m in media]
     calls += [[0, "createOffer", None], [0, "setLocal", None], [1, "setRemote", None]]
     calls += [[1, "add", m] for m in media if m != "dc"]
-    calls += [[1, "createAnswer", None], [1, "setLocal", None], [0, "setRemote", None], [None, "settle", None]]
-    if any(m != "dc" for m in media):
+    if h == "dir":
+        calls.append([1, "setDir", cfg.get("dir", "sendonly")])
+    if h == "badfp":
+        calls += [[1, "createAnswer", None], [1, "setLocal", None], [0, "setRemoteBadFp", None], [None, "settleAny", None],
+                  [0, "nop", None]]
+        return calls
+    calls += [[1, "createAnswer", None], [1, "setLocal", None]]
+    if h == "stopearly":
         calls.append([0, "trxStop", 0])
-    calls += [[0, "add", "dc"], [0, "add", "audio"], [0, "createOffer", None], [0, "setLocal", None], [1, "setRemote", None],
-              [1, "createAnswer", None], [1, "setLocal", None], [0, "setRemote", None]]
+    calls += [[0, "setRemote", None], [None, "settle", None]]
+    after = []
+    for a in cfg.get("after", []):
+        after += {"dc": [[0, "add", "dc"]], "audio": [[0, "add", "audio"]], "video": [[0, "add", "video"]],
+                  "offer": [[0, "createOffer", None], [0, "setLocal", None]]}[a]
+    if h == "std":
+        if any(m != "dc" for m in media):
+            calls.append([0, "trxStop", 0])
+        calls += [[0, "add", "dc"], [0, "add", "audio"], [0, "createOffer", None], [0, "setLocal", None], [1, "setRemote", None],
+                  [1, "createAnswer", None], [1, "setLocal", None], [0, "setRemote", None]]
+    elif h == "dir":
+        calls.append([0, "nop", None])
+    elif h == "reoffer":
+        calls += [[0, "add", cfg.get("extra", "video")], [0, "createOffer", None], [0, "setLocal", None], [1, "setRemote", None]]
+    elif h == "abort":
+        calls += [[1, "sctpStop", None], [0, "waitClosed", None]] + (after or [[0, "add", "dc"]])
+    elif h == "abortclose":
+        calls += [[0, "onCloseAddDc", None], [1, "close", None]]
+    elif h == "gone":
+        calls += [[1, "killSockets", None]] + (after or [[0, "add", "dc"]])
+    elif h == "stopearly":
+        calls.append([0, "nop", None])
+    elif h == "stopped":
+        calls += [[0, "trxStop", 0], [1, "trxStop", 0], [0, "nop", None]]
     return calls
 
 
@@ -101,7 +144,7 @@ def all_calls(cfg):
     seen = {}
     out = []
     for c in script(cfg):
-        if c[1] == "settle":
+        if c[1] in ("settle", "settleAny", "waitClosed", "onCloseAddDc", "killSockets", "sctpStop", "setDir"):
             continue
         key = (c[0], opname(c))
         out.append([c[0], opname(c), seen.get(key, 0)])
@@ -124,6 +167,14 @@ class Session:
             self.world.pcs.append(pc)
             self.world.sync(p)
             cw._listen(self.world, p)
+            pc.on("track", lambda track, p=p: self.consume(p, track))
+
+    def consume(self, p, track):
+        """what an application does with a received track: a consumer blocked in `await track.recv()` (a MediaBlackhole);
+        it has to be released when the connection closes"""
+        if track not in self.world.obtained_tracks[p]:
+            self.world.obtained_tracks[p].append(track)
+            self.world.consumers[p].append(asyncio.ensure_future(cw._drain(track)))
 
     async def call(self, peer, op, arg):
         from aiortc.mediastreams import AudioStreamTrack
@@ -150,6 +201,47 @@ class Session:
             await pc.setRemoteDescription(cw._desc(d, bundle))
         elif op == "trxStop":
             await pc.getTransceivers()[arg].stop()
+        elif op == "nop":
+            pass
+        elif op == "setDir":
+            pc.getTransceivers()[0].direction = arg
+        elif op == "setRemoteBadFp":
+            import re
+            from aiortc import RTCSessionDescription
+            d = cw._desc(other.localDescription, bundle)
+            sdp = re.sub(r"(a=fingerprint:sha-256 )([0-9A-F]{2})", lambda m: m.group(1) + ("00" if m.group(2) != "00" else "11"),
+                         d.sdp)
+            await pc.setRemoteDescription(RTCSessionDescription(sdp=sdp, type=d.type))
+        elif op == "sctpStop":
+            await pc.sctp.stop()
+        elif op == "waitClosed":
+            t0 = time.monotonic()
+            while time.monotonic() - t0 < 2.0 and any(ch.readyState != "closed" for ch in w.peers[peer].chans):
+                await asyncio.sleep(0.01)
+        elif op == "onCloseAddDc":
+            def again(peer=peer, pc=pc):
+                if pc.signalingState != "closed":
+                    ch = pc.createDataChannel("retry")
+                    w.sync(peer)
+                    w.add_channel(peer, ch)
+            if w.peers[peer].chans:
+                # (an `async def` handler, as applications write them: it runs as a task of its own, a moment later)
+                w.peers[peer].chans[0].on("close", lambda: asyncio.get_running_loop().call_soon(again))
+        elif op == "close":
+            await cw._do_close(w, peer, "r")
+        elif op == "killSockets":
+            for ice in list(getattr(pc, "_RTCPeerConnection__iceTransports")):
+                for proto in list(ice._connection._protocols):
+                    if proto.transport is not None:
+                        proto.transport.abort()
+            await asyncio.sleep(0.05)
+        elif op == "settleAny":
+            t0 = time.monotonic()
+            while time.monotonic() - t0 < 3.0:
+                if all(x.connectionState in ("connected", "failed", "closed") for x in w.pcs):
+                    break
+                await asyncio.sleep(0.01)
+            await asyncio.sleep(0.05)
         elif op == "settle":
             t0 = time.monotonic()
             while time.monotonic() - t0 < 3.0:
@@ -183,6 +275,11 @@ async def _main(world, case):
     world.install_wrappers()
     world.close_timeout = 5.0
     cfg = {"policy": case["policy"], "media": case["media"], "bundle": case.get("bundle", True)}
+    for key in ("hist", "dir", "extra", "after"):
+        if key in case:
+            cfg[key] = case[key]
+    world.obtained_tracks = [[], []]
+    world.consumers = [[], []]
     calls = script(cfg)
     j = resolve(calls, case["call"])
     out = {"void": None, "steps": 0, "fired": None, "call_exc": None}
@@ -266,16 +363,31 @@ async def _main(world, case):
         snap["timers"] = cw._timers(world, p)
         snap["returned"] = P.close_returned
         world.sync(p)
+        # EVERY track the application ever obtained (the `track` events) or can obtain (receiver.track of every transceiver,
+        # started or not): a consumer pending in recv() is released, the track is "ended"
         ended = []
+        pending = []
+        for tr, cons in zip(world.obtained_tracks[p], world.consumers[p]):
+            try:
+                await asyncio.wait_for(asyncio.shield(cons), 1.0)
+            except asyncio.TimeoutError:
+                pending.append(tr)
+                cons.cancel()
+            except Exception:  # noqa: BLE001
+                pending.append(tr)
         for t in world.pcs[p].getTransceivers():
             tr = t.receiver.track
             if tr is None:
+                continue
+            if tr in world.obtained_tracks[p] and tr not in pending:
+                ended.append(tr.readyState == "ended")
                 continue
             try:
                 await asyncio.wait_for(cw._drain(tr), 1.0)
                 ended.append(tr.readyState == "ended")
             except asyncio.TimeoutError:
                 ended.append(False)
+        snap["pending_recv"] = [tr.kind for tr in pending]
         snap["tracks_ended"] = ended
         snap["events_after_close"] = list(P.events_after_close)
         snap["listeners_at_return"] = P.lis_at_return
@@ -338,6 +450,7 @@ def run_explore(case):
             pass
         asyncio.set_event_loop(None)
         loop.close()
+        cw.release_threads()
     res = {"trace": [world.peers[0].trace, world.peers[1].trace], "closes": world.close_results, "final": final,
            "summary": [cw.summary(world, p, final[p]) for p in (0, 1)] if final else ["void", "void"],
            "iters": world.iter_total, "notes": world.notes, "secs": round(time.monotonic() - t_start, 2),
